@@ -118,9 +118,9 @@ def run_case(spec):
         ratio = np.abs(M - refM) / tolM
         headroom[key] = max(headroom[key], float(ratio.max()))
         if (ratio > 1).any():
-            i, j = np.unravel_index(np.argmax(ratio), ratio.shape)
-            viol.append(V(site, 'view_value', '%s = %r but the exact value is %r (%.3g x tolerance) for query pair (%d,%d)'
-                          % (vname, M[i, j], refM[i, j], ratio[i, j], i, j), tr, view=vname))
+            ix = np.unravel_index(np.argmax(ratio), ratio.shape)
+            viol.append(V(site, 'view_value', '%s = %r but the exact value is %r (%.3g x tolerance) at index %s of the query alphabet'
+                          % (vname, M[ix], refM[ix], ratio[ix], tuple(int(x) for x in ix)), tr, view=vname))
 
     D = est.pair_distance(pairs)
     cmp('pair_distance', D)
